@@ -23,9 +23,10 @@ import (
 const sigStaleValue = "tsi-stale-tag-value-after-series-drop"
 const sigStaleKeys = "tsi-stale-tag-keys-after-measurement-drop"
 const sigStaleSet = "tsi-dropmeasurement-stale-seriesidset"
+const sigKeep = "tsi-dropped-series-visible-while-series-file-keeps-id"
 
 type jstep struct {
-	T      string `json:"t"` // create | drop | dropmeas | reopen
+	T      string `json:"t"` // create | drop | dropkeep (drop without the series-file delete) | dropmeas | reopen
 	Series []int  `json:"series,omitempty"`
 	Meas   string `json:"meas,omitempty"`
 	// observed
@@ -87,8 +88,8 @@ func obsT(o *jobs) string {
 			}
 		}
 	}
-	return fmt.Sprintf("{| o_meas := %s; o_keys := %s; o_vals := %s; o_ms := %s; o_ks := %s; o_vs := %s |}",
-		strsT(o.Meas), vh.List(keys), vh.List(vals), vh.List(ms), vh.List(ks), vh.List(vs))
+	return fmt.Sprintf("{| o_meas := %s; o_keys := %s; o_vals := %s; o_ms := %s; o_ks := %s; o_vs := %s; o_set := %s |}",
+		strsT(o.Meas), vh.List(keys), vh.List(vals), vh.List(ms), vh.List(ks), vh.List(vs), vh.Ns(o.Set))
 }
 func shapeT(sh [][]int) string {
 	xs := make([]string, len(sh))
@@ -156,7 +157,7 @@ func (r *runner) step(st *jstep) error {
 		}
 		st.Obs = obs
 		r.prim("OCreate "+vh.List(xs), st, obs)
-	case "drop":
+	case "drop", "dropkeep":
 		names := map[string]bool{}
 		var ids []uint64
 		for _, d := range st.Series {
@@ -179,7 +180,12 @@ func (r *runner) step(st *jstep) error {
 			}
 			r.prim("ODropIfNone "+strT(n), st, nil)
 		}
-		if err := e.sfDelete(ids); err != nil {
+		// "dropkeep": another shard still has the series, the engine leaves the series file alone
+		del := ids
+		if st.T == "dropkeep" {
+			del = nil
+		}
+		if err := e.sfDelete(del); err != nil {
 			return err
 		}
 		obs, err := observe(e.idx, e.sfile)
@@ -187,7 +193,7 @@ func (r *runner) step(st *jstep) error {
 			return err
 		}
 		st.Obs, st.IDs = obs, ids
-		r.prim("OSfDelete "+vh.Ns(ids), st, obs)
+		r.prim("OSfDelete "+vh.Ns(del), st, obs)
 	case "dropmeas":
 		if err := e.dropMeas(st.Meas); err != nil {
 			return err
@@ -342,16 +348,23 @@ func run(w *vh.W, c *jcase) {
 		}
 		nontrivial = maxLevel >= 1
 		w.Count("max_level", fmt.Sprint(maxLevel))
-		term = fmt.Sprintf("{| c_univ := {| u_ms := %s; u_ks := %s; u_vs := %s |}; c_parts := %s; c_maxlog := %s; c_cache := %s; c_strict := %s; c_steps := %s; c_crash := %s |}",
+		keep := false
+		for _, st := range c.Steps {
+			if st.T == "dropkeep" {
+				keep = true
+			}
+		}
+		w.Count("keeps_series_file_id", fmt.Sprint(keep))
+		term = fmt.Sprintf("{| c_univ := {| u_ms := %s; u_ks := %s; u_vs := %s |}; c_parts := %s; c_maxlog := %s; c_cache := %s; c_strict := %s; c_keep := %s; c_steps := %s; c_crash := %s |}",
 			strsT(measNames), strsT(keyNames), strsT(valNames), vh.Nat(c.PartN), vh.N(uint64(c.MaxLog)), vh.Bool(c.Cache > 0),
-			vh.Bool(c.Strict), vh.List(r.terms), ct)
+			vh.Bool(c.Strict), vh.Bool(keep), vh.List(r.terms), ct)
 	})
 	if p != "" {
 		fail = "panic: " + p
 	}
 	if fail != "" {
 		// a case the judge accepts trivially, plus the failure itself
-		term = fmt.Sprintf("{| c_univ := {| u_ms := []; u_ks := []; u_vs := [] |}; c_parts := 1%%nat; c_maxlog := 1%%N; c_cache := false; c_strict := false; c_steps := []; c_crash := None |} (* case %d failed on the implementation *)", idx)
+		term = fmt.Sprintf("{| c_univ := {| u_ms := []; u_ks := []; u_vs := [] |}; c_parts := 1%%nat; c_maxlog := 1%%N; c_cache := false; c_strict := false; c_keep := false; c_steps := []; c_crash := None |} (* case %d failed on the implementation *)", idx)
 		w.Add(term, c, true, c.Sig)
 		w.Fail(idx, fail, c.Sig)
 		return
@@ -395,6 +408,26 @@ func corpus() []*jcase {
 		Domain: []jseries{s("m0", "k0", "v0"), s("m0", "k0", "v1")}, PartN: 1, MaxLog: 5, Cache: 0,
 		Steps: []jstep{{T: "create", Series: []int{0}}, {T: "dropmeas", Meas: "m0"}, {T: "create", Series: []int{1}},
 			{T: "drop", Series: []int{1}}, {T: "reopen"}}})
+	// a series created and dropped inside one log file, reopen (the partition's series id set is
+	// rebuilt from the files' existence/tombstone bitmaps), the same key created again
+	for _, ml := range []int64{1 << 20, 40} {
+		out = append(out, &jcase{Gen: "corpus:create-drop-one-log-reopen", Domain: []jseries{s("m0", "k0", "v0"), s("m0", "k0", "v1"), s("m1", "k1", "v2")},
+			PartN: 1, MaxLog: ml, Cache: 0,
+			Steps: []jstep{{T: "create", Series: []int{0, 1}}, {T: "drop", Series: []int{0}}, {T: "reopen"}, {T: "create", Series: []int{0, 2}}, {T: "reopen"}}})
+		out = append(out, &jcase{Gen: "corpus:create-dropkeep-one-log-reopen", Sig: sigKeep, Domain: []jseries{s("m0", "k0", "v0"), s("m0", "k0", "v1"), s("m1", "k1", "v2")},
+			PartN: 1, MaxLog: ml, Cache: 0,
+			Steps: []jstep{{T: "create", Series: []int{0, 1}}, {T: "dropkeep", Series: []int{0}}, {T: "reopen"}, {T: "create", Series: []int{0, 2}}, {T: "reopen"},
+				{T: "create", Series: []int{0}}}})
+	}
+	// a series dropped from the index only (the series file keeps its id), that log compacted, the
+	// same key (same id) created again, that log compacted, the index files merged level by level:
+	// the merged file must not keep the older tombstone of the re-created series
+	for _, pn := range []int{1, 2} {
+		out = append(out, &jcase{Gen: "corpus:dropkeep-recreate-merge", Sig: sigKeep, Domain: []jseries{s("m0", "k0", "v0"), s("m0", "k0", "v1"), s("m0", "k1", "v2"), s("m1", "k0", "v0")},
+			PartN: pn, MaxLog: 5, Cache: 0, Crash: pn == 1,
+			Steps: []jstep{{T: "create", Series: []int{0, 1}}, {T: "dropkeep", Series: []int{0}}, {T: "create", Series: []int{0}}, {T: "create", Series: []int{2}},
+				{T: "create", Series: []int{3}}, {T: "reopen"}, {T: "dropkeep", Series: []int{1}}, {T: "create", Series: []int{1}}, {T: "drop", Series: []int{3}}, {T: "create", Series: []int{3}}}})
+	}
 	// the same histories under the weak oracle must be clean, also with the cache and 8 partitions
 	for _, pn := range []int{1, 8} {
 		for _, cache := range []int{0, 100} {
@@ -430,6 +463,7 @@ func genCase(w *vh.W) *jcase {
 		}
 	}
 	live := map[int]bool{}
+	keepMode := r.IntN(4) == 0 // some drops leave the id in the series file (another shard has the series)
 	n := 5 + r.IntN(8)
 	for i := 0; i < n; i++ {
 		x := r.IntN(20)
@@ -445,6 +479,10 @@ func genCase(w *vh.W) *jcase {
 			c.Steps = append(c.Steps, st)
 		case x < 15:
 			st := jstep{T: "drop"}
+			if keepMode && r.IntN(3) != 0 {
+				st.T = "dropkeep"
+				c.Sig = sigKeep
+			}
 			var ls []int
 			for d := range live {
 				ls = append(ls, d)
@@ -485,7 +523,7 @@ func genCase(w *vh.W) *jcase {
 
 func main() {
 	w := vh.New("C14", "From Verif Require Import Base.Prelude Model.C14.", "case", "check")
-	w.Rule = "one case = a history (5-12 steps) over a domain of 5-8 series drawn from 3 measurements x 2 tag keys x 3 values on a real tsi1.Index (1, 2 or 8 partitions; maximum log file size 5..80 bytes or 1 MiB so that log files roll and compact to L1, L2, ... between steps; series id cache off or on): create batch / drop series the way the engine does (DropSeries, DropMeasurementIfSeriesNotExist, series-file delete) / Index.DropMeasurement / reopen, every query observed after every step; one third of the cases add crash images (active log cut at every byte of its last entry, second index opened on the copy). Hand-picked histories first (the three known-finding witnesses judged with the full statement, and mixed histories with 1 and 8 partitions, cache off and on). Non-trivial: some log file was compacted into an index file during the history. Distinct: distinct Gallina terms."
+	w.Rule = "one case = a history (5-12 steps) over a domain of 5-8 series drawn from 3 measurements x 2 tag keys x 3 values on a real tsi1.Index (1, 2 or 8 partitions; maximum log file size 5..80 bytes or 1 MiB so that log files roll and compact to L1, L2, ... between steps; series id cache off or on): create batch / drop series the way the engine does (DropSeries, DropMeasurementIfSeriesNotExist, series-file delete) / the same drop WITHOUT the series-file delete (a quarter of the histories; the key is later re-created with the same id) / Index.DropMeasurement / reopen, every query plus Index.SeriesIDSet()/SeriesN() observed after every step; one third of the cases add crash images (active log cut at every byte of its last entry, second index opened on the copy). Hand-picked histories first (the three known-finding witnesses judged with the full statement; create+drop inside one log file then reopen then re-create; drop-keeping-the-id then re-create with level merges up to L4; and mixed histories with 1 and 8 partitions, cache off and on). Non-trivial: some log file was compacted into an index file during the history. Distinct: distinct Gallina terms."
 	var rc jcase
 	if w.ReplayCase(&rc) {
 		run(w, &rc)
